@@ -736,3 +736,387 @@ def wrap_scenario(pre, sc, wrapped):
              [(None, [("expr", ("str", "escaped"))])], None)
     return pre + [("def", "res", ("blocke", outer)),
                   ("expr", ("list", [("var", "res"), ("var", "trace")]))]
+
+
+# ------------------------------------------------------------------ C03
+
+def V(n):
+    return ("var", n)
+
+
+def I(n):
+    return ("int", n)
+
+
+def fnblock(stmts):
+    return ("block", stmts, [], None)
+
+
+def guarded(e):
+    """do e catch all 'E' end  (as an expression)"""
+    return ("blocke", ("block", [("expr", e)],
+                       [(None, [("expr", ("str", "E"))])], None))
+
+
+class ScopeGen:
+    """Scenario fragments for lexical scoping and argument binding."""
+
+    NAMES = ["a", "b", "c", "d"]
+
+    def __init__(self, ch):
+        self.ch = ch
+        self.n = 0
+        self.tags = 0
+        self.features = set()
+
+    def fresh(self, p="f"):
+        self.n += 1
+        return f"{p}{self.n}"
+
+    def tag(self):
+        self.tags += 1
+        return self.tags
+
+    def name(self):
+        return self.ch.choice(self.NAMES)
+
+    def wrap_levels(self, stmts, levels):
+        """Run stmts inside `levels` nested function scopes."""
+        for _ in range(levels):
+            w = self.fresh("w")
+            stmts = [("deffn", w, [], fnblock(stmts + [("expr", I(0))])),
+                     ("expr", call(w))]
+        return stmts
+
+    # T1: free variable of a function called from a redefining scope
+    def t1(self):
+        ch = self.ch
+        N = self.name()
+        reader, caller = self.fresh("rd"), self.fresh("cl")
+        depth = ch.int(0, 2)
+        body = V(N)
+        rd = ("deffn", reader, [], ("bin", "+", body, I(0)))
+        # optionally the reader is created by a factory (closure returned)
+        out = [("def", N, I(ch.int(1, 9)))]
+        if depth == 0:
+            out.append(rd)
+        else:
+            mk = self.fresh("mk")
+            inner = [("def", N, I(ch.int(10, 19)))] if ch.bool() else []
+            out.append(("deffn", mk, [], fnblock(
+                inner + [("expr", ("fn", [], ("bin", "+", V(N), I(0))))])))
+            out.append(("def", reader, call(mk)))
+        shadow = I(ch.int(100, 109))
+        via_param = ch.bool(0.3)
+        if via_param:
+            out.append(("deffn", caller, [(N, None, False)],
+                        fnblock([("expr", call(reader))])))
+            out.append(tag_log(self.tag(), ("call", V(caller),
+                                            [("pos", shadow)]),
+                               call(reader)))
+        else:
+            out.append(("deffn", caller, [], fnblock(
+                [("def", N, shadow), ("expr", call(reader))])))
+            out.append(tag_log(self.tag(), call(caller), call(reader)))
+        if ch.bool():
+            out.append(("assign", N, I(ch.int(50, 59))))
+            out.append(tag_log(self.tag(), call(reader)))
+        self.features.add("T1")
+        return out
+
+    # T2: assignment from a callee
+    def t2(self):
+        ch = self.ch
+        N = self.name()
+        setter, caller = self.fresh("st"), self.fresh("cl")
+        out = [("def", N, I(ch.int(1, 9)))]
+        op = ch.choice(["assign", "opassign", "nested"])
+        if op == "assign":
+            sbody = [("assign", N, ("bin", "+", V(N), I(10))), ("expr", V(N))]
+        elif op == "opassign":
+            sbody = [("opassign", N, ch.choice(["+", "*", "-"]), I(3)),
+                     ("expr", V(N))]
+        else:
+            inner = self.fresh("in")
+            sbody = [("deffn", inner, [], fnblock(
+                [("assign", N, ("bin", "*", V(N), I(2))), ("expr", V(N))])),
+                ("expr", call(inner))]
+        out.append(("deffn", setter, [], fnblock(sbody)))
+        out.append(("deffn", caller, [], fnblock(
+            [("def", N, I(100)), ("expr", call(setter)), ("expr", V(N))])))
+        out.append(tag_log(self.tag(), call(caller), V(N)))
+        if ch.bool(0.4):
+            # assignment to a name that is bound nowhere: runtime error
+            out.append(tag_log(self.tag(), guarded(
+                ("call", ("fn", [], fnblock([("assign", "zz_unbound", I(1)),
+                                             ("expr", I(5))])), []))))
+        if ch.bool(0.4):
+            # def inside a function must not touch the outer binding
+            loc = self.fresh("lc")
+            out.append(("deffn", loc, [], fnblock(
+                [("def", N, I(777)), ("expr", V(N))])))
+            out.append(tag_log(self.tag(), call(loc), V(N)))
+        self.features.add("T2")
+        return out
+
+    # T3: closures returned from ended frames
+    def t3(self):
+        ch = self.ch
+        k = ch.choice(["counter", "curried", "compose", "adder-list"])
+        out = []
+        if k == "counter":
+            mk, c = self.fresh("mk"), self.name()
+            out.append(("deffn", mk, [("start", None, False)], fnblock(
+                [("def", c, V("start")),
+                 ("expr", ("fn", [("step", I(1), False)], fnblock(
+                     [("assign", c, ("bin", "+", V(c), V("step"))),
+                      ("expr", V(c))])))])))
+            k1, k2 = self.fresh("k"), self.fresh("k")
+            out += [("def", k1, ("call", V(mk), [("pos", I(0))])),
+                    ("def", k2, ("call", V(mk), [("pos", I(10))]))]
+            seq = []
+            for _ in range(ch.int(3, 6)):
+                kk = ch.choice([k1, k2])
+                seq.append(("call", V(kk), [("pos", I(ch.int(1, 3)))]
+                            if ch.bool(0.3) else []))
+            out.append(tag_log(self.tag(), ("list", seq)))
+        elif k == "curried":
+            f = self.fresh("cur")
+            a, b, c = self.NAMES[:3]
+            out.append(("deffn", f, [(a, None, False)],
+                        ("fn", [(b, None, False)],
+                         ("fn", [(c, None, False)],
+                          ("bin", "+", ("bin", "*", V(a), I(100)),
+                           ("bin", "+", ("bin", "*", V(b), I(10)), V(c)))))))
+            p = self.fresh("p")
+            out.append(("def", p, ("call", V(f), [("pos", I(ch.int(1, 9)))])))
+            out.append(tag_log(
+                self.tag(),
+                ("call", ("call", V(p), [("pos", I(ch.int(1, 9)))]),
+                 [("pos", I(ch.int(1, 9)))]),
+                ("call", ("call", ("call", V(f), [("pos", I(1))]),
+                          [("pos", I(2))]), [("pos", I(3))])))
+        elif k == "compose":
+            comp = self.fresh("comp")
+            out.append(("deffn", comp, [("f", None, False),
+                                        ("g", None, False)],
+                        ("fn", [("x", None, False)],
+                         ("call", V("f"), [("pos", ("call", V("g"),
+                                                    [("pos", V("x"))]))]))))
+            inc, dbl = self.fresh("inc"), self.fresh("dbl")
+            out += [("deffn", inc, [("x", None, False)],
+                     ("bin", "+", V("x"), I(1))),
+                    ("deffn", dbl, [("x", None, False)],
+                     ("bin", "*", V("x"), I(2)))]
+            h = self.fresh("h")
+            out.append(("def", h, ("call", V(comp),
+                                   [("pos", V(inc)), ("pos", V(dbl))])))
+            out.append(tag_log(self.tag(),
+                               ("call", V(h), [("pos", I(ch.int(0, 9)))]),
+                               ("call", ("call", V(comp), [("pos", V(dbl)),
+                                                           ("pos", V(inc))]),
+                                [("pos", I(ch.int(0, 9)))])))
+        else:
+            fs = self.fresh("fs")
+            # closures created in a loop-free way over a parameter
+            mk = self.fresh("mk")
+            out.append(("deffn", mk, [("n", None, False)],
+                        ("fn", [], ("bin", "*", V("n"), V("n")))))
+            out.append(("def", fs, ("list", [
+                ("call", V(mk), [("pos", I(i))]) for i in range(1, 4)])))
+            out.append(tag_log(self.tag(), ("list", [
+                ("call", ("index", V(fs), I(i)), []) for i in range(3)])))
+        self.features.add("T3")
+        return out
+
+    # T4: recursion, fresh parameter bindings per call
+    def t4(self):
+        ch = self.ch
+        f = self.fresh("rec")
+        n = self.name()
+        k = ch.choice(["own-n", "acc", "fib"])
+        if k == "own-n":
+            body = [("if", [(("cmp", [V(n), I(0)], [">"]),
+                             [("expr", ("call", V(f), [("pos", ("bin", "-", V(n), I(1)))]))])],
+                     None),
+                    tag_log(self.tag(), V(n)),
+                    ("expr", V(n))]
+            out = [("deffn", f, [(n, None, False)], fnblock(body)),
+                   tag_log(self.tag(), ("call", V(f), [("pos", I(ch.int(1, 4)))]))]
+        elif k == "acc":
+            body = [("if", [(("cmp", [V(n), I(0)], ["=="]),
+                             [("return", V("acc"))])], None),
+                    ("assign", "acc", ("bin", "+", V("acc"), V(n))),
+                    ("assign", n, ("bin", "-", V(n), I(1))),
+                    ("expr", ("call", V(f), [("pos", V(n)), ("pos", V("acc"))]))]
+            out = [("deffn", f, [(n, None, False), ("acc", I(0), False)],
+                    fnblock(body)),
+                   tag_log(self.tag(), ("call", V(f), [("pos", I(ch.int(1, 6)))]))]
+        else:
+            body = ("ife", [(("cmp", [V(n), I(2)], ["<"]),
+                             [("expr", V(n))])],
+                    [("expr", ("bin", "+",
+                               ("call", V(f), [("pos", ("bin", "-", V(n), I(1)))]),
+                               ("call", V(f), [("pos", ("bin", "-", V(n), I(2)))])))])
+            out = [("deffn", f, [(n, None, False)], body),
+                   tag_log(self.tag(), ("call", V(f), [("pos", I(ch.int(2, 7)))]))]
+        self.features.add("T4")
+        return out
+
+    # T5: defaults at call time in the callee scope
+    def t5(self):
+        ch = self.ch
+        G = self.name()
+        f, caller = self.fresh("df"), self.fresh("cl")
+        p = "p"
+        out = [("def", G, I(ch.int(1, 9)))]
+        out.append(("deffn", f, [(p, None, False),
+                                 ("q", ("bin", "+", V(G), V(p)), False),
+                                 ("r", ("bin", "*", V("q"), I(2)), False)],
+                    ("list", [V(p), V("q"), V("r")])))
+        out.append(tag_log(self.tag(), ("call", V(f), [("pos", I(1))])))
+        out.append(("assign", G, I(ch.int(20, 29))))
+        out.append(tag_log(self.tag(), ("call", V(f), [("pos", I(1))]),
+                           ("call", V(f), [("pos", I(1)), ("named", "q", I(5))])))
+        out.append(("deffn", caller, [], fnblock(
+            [("def", G, I(500)), ("def", p, I(600)),
+             ("expr", ("call", V(f), [("pos", I(2))]))])))
+        out.append(tag_log(self.tag(), call(caller)))
+        if ch.bool():
+            # a default with a side effect is evaluated once per call that
+            # needs it
+            cnt = self.fresh("cnt")
+            g = self.fresh("dg")
+            out += [("def", cnt, I(0)),
+                    ("deffn", g, [("x", ("blocke", ("block", [
+                        ("assign", cnt, ("bin", "+", V(cnt), I(1))),
+                        ("expr", V(cnt))], [], None)), False)], V("x")),
+                    tag_log(self.tag(), ("list", [
+                        ("call", V(g), []), ("call", V(g), [("pos", I(50))]),
+                        ("call", V(g), []), V(cnt)]))]
+        self.features.add("T5")
+        return out
+
+    # T6: the argument binding matrix
+    def t6(self):
+        ch = self.ch
+        f = self.fresh("bf")
+        nparams = ch.int(1, 4)
+        names = ["p", "q", "r", "s"][:nparams]
+        ndefaults = ch.int(0, nparams)
+        params = []
+        for i, n in enumerate(names):
+            default = ("str", n.upper()) if i >= nparams - ndefaults else None
+            params.append((n, default, False))
+        has_rest = ch.bool(0.5)
+        items = [V(n) for n in names]
+        if has_rest:
+            params.append(("rest", None, True))
+            items.append(V("rest..."))
+        out = [("deffn", f, params, ("list", items))]
+        lst = self.fresh("ls")
+        out.append(("def", lst, ("list", [I(70 + i)
+                                          for i in range(ch.int(0, 3))])))
+        calls = []
+        for _ in range(ch.int(3, 6)):
+            args = []
+            npos = ch.int(0, nparams + 2)
+            val = 0
+            for _ in range(npos):
+                val += 1
+                k = ch.weighted([(6, "pos"), (2, "spread-var"),
+                                 (1, "spread-lit")])
+                if k == "pos":
+                    args.append(("pos", I(val)))
+                elif k == "spread-var":
+                    args.append(("spread", V(lst)))
+                    self.features.add("spread-list")
+                else:
+                    args.append(("spread", ("list", [I(90 + val),
+                                                     I(95 + val)])))
+                    self.features.add("spread-list")
+            # named arguments after the positional ones
+            nn = ch.int(0, 2)
+            used = set()
+            for _ in range(nn):
+                n = ch.choice(names + (["zz"] if ch.bool(0.1) else []))
+                if n in used:
+                    continue
+                used.add(n)
+                args.append(("named", n, ("str", "n-" + n)))
+                self.features.add("named")
+            if ch.bool(0.25):
+                mk = [n for n in names if n not in used]
+                if mk:
+                    picked = ch.sample(mk, ch.int(1, len(mk)))
+                    args.append(("spread", ("map", [
+                        (("str", n), ("str", "m-" + n)) for n in picked])))
+                    self.features.add("spread-map")
+            calls.append(guarded(("call", V(f), args)))
+        out.append(tag_log(self.tag(), ("list", calls)))
+        self.features.add("T6")
+        return out
+
+    # T7: pipeline, methods, prototype chains
+    def t7(self):
+        ch = self.ch
+        out = []
+        k = ch.choice(["pipe", "proto", "pipe", "proto"])
+        if k == "pipe":
+            f = self.fresh("pf")
+            out.append(("deffn", f, [("x", None, False), ("y", I(0), False),
+                                     ("z", I(0), False)],
+                        ("list", [V("x"), V("y"), V("z")])))
+            out.append(tag_log(
+                self.tag(),
+                ("pipe", I(ch.int(1, 9)), V(f), [("pos", I(ch.int(10, 19)))]),
+                ("pipe", I(5), V(f), []),
+                ("pipe", I(5), V(f), [("named", "z", I(7))]),
+                ("pipe", ("list", [I(1), I(2)]),
+                 ("fn", [("l", None, False), ("k", None, False)],
+                  ("bin", "+", V("l"), V("k"))), [("pos", I(3))]),
+                ("pipe", ("pipe", I(2), V(f), [("pos", I(3))]), V(f),
+                 [("pos", I(4))])))
+            self.features.add("pipeline")
+        else:
+            base, mid, obj = self.fresh("ob"), self.fresh("ob"), \
+                self.fresh("ob")
+            out.append(("def", base, ("obj", [
+                ("id", I(0)),
+                ("m", ("fn", [("self", None, False), ("k", I(1), False)],
+                       ("list", [("member", V("self"), "id"), V("k")]))),
+                ("only_base", ("fn", [("self", None, False)],
+                               ("member", V("self"), "id")))])))
+            out.append(("def", mid, ("obj", [("_proto_", V(base)),
+                                             ("id", I(1))])))
+            members = [("_proto_", V(mid)), ("id", I(2))]
+            if ch.bool():
+                members.append(("m", ("fn", [("self", None, False),
+                                             ("k", I(1), False)],
+                                      ("list", [("str", "own"), V("k")]))))
+            out.append(("def", obj, ("obj", members)))
+            o = ch.choice([base, mid, obj])
+            out.append(tag_log(
+                self.tag(),
+                ("method", V(obj), "m", [("pos", I(9))]),
+                ("method", V(mid), "m", []),
+                ("method", V(o), "only_base", []),
+                guarded(("method", V(obj), "missing", [])),
+                ("method", V(obj), "m", [("named", "k", I(4))])))
+            self.features.add("method")
+        self.features.add("T7")
+        return out
+
+    def program(self):
+        ch = self.ch
+        stmts = [("def", "trace", ("list", []))]
+        frags = [self.t1, self.t2, self.t3, self.t4, self.t5, self.t6,
+                 self.t7]
+        for _ in range(ch.int(2, 4)):
+            fr = ch.choice(frags)()
+            levels = ch.weighted([(4, 0), (3, 1), (2, 2), (1, 3)])
+            if levels:
+                self.features.add(f"nested-scope-{levels}")
+            stmts += self.wrap_levels(fr, levels)
+        stmts.append(("expr", V("trace")))
+        return stmts
